@@ -148,7 +148,8 @@ def h_cmd_run(fmt):
 
 def harnesses(tier):
     from props import C11_config
-    return [Harness('cmd_run[%s]' % f, h_cmd_run(f), [RUN]) for f in ('html', 'json', 'markdown', 'summary')] + C11_config.harnesses(tier)
+    return [Harness('cmd_run[%s]' % f, h_cmd_run(f), [RUN]) for f in ('html', 'json', 'markdown', 'summary')] + C11_config.harnesses(tier) + \
+        [Harness('resolve_source_format.overrides', h_resolve_overrides, ['tally.config_loader.resolve_source_format'])]
 
 
 ORACLES = [
@@ -182,3 +183,48 @@ def structural(tier, res):
     out.append(frames.Clause(q + '#format_spec_is_built_for_this_source', built, 'format_spec bound only from parse_format_string(...)' if built else 'format_spec bound from %s' % binds, kind='auxiliary'))
     # `source` names the private copy from the first statement on (the alias classification is flow-insensitive, so it is allowed by name here)
     return out + frames.check_assigns(fi, {'warnings', 'source'}, {'parse_format_string', 'FormatSpec'}, cid=q + '#writes_only_per_source_state')
+
+
+def h_resolve_overrides(ctx):
+    """resolve_source_format: the FormatSpec of a source is parse_format_string(source.format, template) with exactly the source's own delimiter /
+    has_header / negate_amount written over it, value for value (no trimming, no defaults from elsewhere); everything else is left as parsed"""
+    sp = Spec()
+    I = Interp(ctx, sp)
+    keys = ['delimiter', 'has_header', 'negate_amount']
+    present = {k: bool(ctx.choose(2, 'has.' + k)) for k in keys}
+    vals = {'delimiter': ctx.fresh('source.delimiter', StrS), 'has_header': ctx.fresh('source.has_header', BoolS), 'negate_amount': ctx.fresh('source.negate_amount', BoolS)}
+    fmt, name = ctx.fresh('source.format', StrS), ctx.fresh('source.name', StrS)
+    source = {'name': name, 'file': ctx.fresh('source.file', StrS), 'format': fmt}
+    for k in keys:
+        if present[k]:
+            source[k] = vals[k]
+    supp = bool(ctx.choose(2, 'supplemental'))
+    if supp:
+        source['supplemental'] = True
+    parsed = {'delimiter': ctx.fresh('parsed.delimiter', StrS), 'has_header': ctx.fresh('parsed.has_header', BoolS), 'negate_amount': ctx.fresh('parsed.negate_amount', BoolS),
+              'abs_amount': ctx.fresh('parsed.abs_amount', BoolS), 'date_column': ctx.fresh('parsed.date_column', IntS)}
+    spec_rec = Rec('FormatSpec', dict(parsed))
+    seen = []
+
+    def m_parse(I_, a, k, n):
+        seen.append(a)
+        return spec_rec
+    sp.models['parse_format_string'] = Func(m_parse)
+    fi = find_function('tally.config_loader.resolve_source_format')
+    original = dict(source)
+    r = I.call_function(fi, [source])
+    ctx.check('C11.source.caller_entry_not_modified', source == original, 'property')
+    ctx.check('C11.source.format_parsed_from_this_sources_format_string', len(seen) == 1 and to_z3(seen[0][0], StrS) is not None and z3.eq(to_z3(seen[0][0], StrS), fmt), 'property')
+    ok = isinstance(r, dict) and r.get('_format_spec') is spec_rec
+    ctx.check('C11.source.format_spec_is_the_parsed_one', ok, 'property')
+    if not ok:
+        return
+    ctx.check('C11.source.parser_type_generic', r.get('_parser_type') == 'generic', 'property')
+    ctx.check('C11.source.supplemental_flag_is_the_sources', r.get('_supplemental') is supp, 'property')
+    for k in keys:
+        got = to_z3(spec_rec.fields[k])
+        want = vals[k] if present[k] else parsed[k]
+        ctx.check('C11.source.%s_is_the_sources_own_value_else_as_parsed' % k, got == want, 'property')
+    for k in ('abs_amount', 'date_column'):
+        ctx.check('C11.source.%s_left_as_parsed' % k, to_z3(spec_rec.fields[k]) == parsed[k], 'property')
+    ctx.cover('resolve_source_format.returns')
